@@ -114,6 +114,9 @@ def family():
                                         f("e", _enum("Ed")), f("e2", "Ed", default="A")]), "defaults")
     add("rec_defaults5", _rec("Dflt5", [f("m", {"type": "map", "values": "string"}, default={"k": "v"}), f("k", "int")]),
         "defaults")
+    add("rec_defaults6", _rec("Dflt6", [f("first", _enum("Su"), default="A"), f("second", "Su", default="C"), f("third", "Su", default="B"),
+                                        f("r1", _rec("In6", [f("v", "int")])), f("r2", "In6", default={"v": 2}),
+                                        f("r3", "In6", default={"v": 3})]), "defaults")
     add("rec_defaults2", _rec("Dflt2", [f("s", "string", default="dd"), f("r", "int"),
                                         f("e", _enum("De"), default="B")]), "defaults")
     # a named type defined in the schema that is not a branch of the union next to it
@@ -132,6 +135,10 @@ def family():
     add("rec_enum_default", _rec("Red", [f("e", dict(_enum("Edr"), default="A")), f("u", ["null", "Edr"]), f("k", "int")]),
         "rec", "enumdefault")
     # references and namespaces
+    add("rec_two_children", _rec("Par", [f("a", _rec("ChA", [f("x", "int")])), f("b", _rec("ChB", [f("y", "string"), f("e", _enum("ChE"))])),
+                                        f("again", "ChA"), f("e2", "ChE")], namespace="fam"), "ref")
+    add("err_nested", _rec("Reply", [f("failure", dict(_rec("Failure", [f("code", _enum("Code")), f("msg", "string")]), type="error")),
+                                     f("again", "Code"), f("codes", {"type": "array", "items": "rpc.Code"})], namespace="rpc"), "ref", "rec")
     add("map_named_twice", _rec("Mt", [f("one", _rec("It", [f("v", "int")])), f("m", {"type": "map", "values": "It"}),
                                       f("again", "It")]), "ref", "heavy")
     add("map_defines_named", _rec("Md", [f("m", {"type": "map", "values": _enum("Em")}), f("e", "Em"),
